@@ -488,6 +488,21 @@ def cfg_defined(data: bytes, d: Path):
         p.unlink()
 
 
+def par_eval(ctx, name, case_type, cases, checks, chunk=100, workers=6):
+    """core.eval_bad_indices over slices of the case list in parallel (one coqc per slice)."""
+    slices = [(off, cases[off:off + chunk]) for off in range(0, len(cases), chunk)]
+    bad = {c: [] for c in checks}
+
+    def one(s):
+        off, part = s
+        return off, core.eval_bad_indices(ctx, f"{name}_{off}", IMPORTS, case_type, part, checks, chunk=chunk)
+    with ThreadPoolExecutor(max_workers=workers) as ex:
+        for off, res in ex.map(one, slices):
+            for c in checks:
+                bad[c].extend(off + i for i in res[c])
+    return bad
+
+
 def c_deps(deps):
     return clist([cpair(cstr(n), cstr(l)) for n, l in deps], "str * str")
 
@@ -547,10 +562,13 @@ def deps_from_names(names):
     return [dep_pool()[n] for n in names]
 
 
-def other_spelling(deps, names):
-    """a requested package is declared under a different raw spelling of the same canonical name"""
-    return any(canon(n) == canon(x) and n != x for n, _ in deps for x in names) and \
-        not any(n == x for n, _ in deps for x in names)
+def other_spelling(deps, names, after):
+    """a requested package is declared under a different raw spelling of the same canonical name and was added all the same"""
+    for n, line in deps:
+        same = [x for x in names if canon(x) == canon(n)]
+        if same and n not in same and line in nl_split(after) + [l.strip() for l in nl_split(after)]:
+            return True
+    return False
 
 
 def poetry_declares(files: dict, key: str) -> bool:
@@ -585,6 +603,19 @@ def part_req(ctx, n):
         deps = gen_deps(rng)
         text, tags = gen_req_text(rng, [dep_tuple(d) for d in deps])
         cases.append(("gen", text, deps, rng.random() < 0.2, tags))
+    if not ctx.quick():
+        # exhaustive small scope: every file of <= 3 lines over 6 line kinds x {LF, CRLF} x final newline or not x 2 dependency lists
+        import itertools
+        kinds = [["foo==1.0"], ["Security>=1"], ["# c"], [""], ["-r o.txt"], ["security==1.3.1 \\", "    --hash=sha256:" + "ab" * 32]]
+        pool = dep_pool()
+        for k in range(0, 4):
+            for combo in itertools.product(kinds, repeat=k):
+                ls = [l for b in combo for l in b]
+                for nl in ("\n", "\r\n"):
+                    for final in (True, False):
+                        text = nl.join(ls) + (nl if final and ls else "")
+                        for dl in (["security"], ["security", "bar"]):
+                            cases.append(("exhaustive", text, [pool[x] for x in dl], False, {"exhaustive"}))
     # malformed stream: model == implementation only
     junk = ["\x00\x01", "====\n", "foo==\n", "[section]\nx=1\n", "foo==1.0 \\", "a\x0cb\nc\x1dd\x85e f\n", "\n\n\n", "\t\n", "-r\n", "-rfoo\n",
             "#\n", "foo # c # d\n", "foo;bar\n", "  \r \r\n", "\r", "\r\r\n\n\r", "foo\\\n\\\n", "a" * 300 + "\n"]
@@ -625,8 +656,8 @@ def part_req(ctx, n):
                  nontrivial_key=("req", text, tuple(dt), dry) if (r["kind"] == 2 or any(canon(nm) in {canon(x) for x in r["names"]} for nm, _ in dt)) else None,
                  sample=(r["kind"] == 2 and len(text) > 20 and not malformed))
 
-    bad = core.eval_bad_indices(ctx, "c14_req", IMPORTS, "req_case", coq_cases, ["req_model_ok", "req_spec_ok", "req_spec_ok_mod_nl"], chunk=150)
-    badc = core.eval_bad_indices(ctx, "c14_clean", IMPORTS, "clean_case", clean_cases, ["clean_model_ok"], chunk=200)
+    bad = par_eval(ctx, "c14_req", "req_case", coq_cases, ["req_model_ok", "req_spec_ok", "req_spec_ok_mod_nl"], chunk=60)
+    badc = par_eval(ctx, "c14_clean", "clean_case", clean_cases, ["clean_model_ok"], chunk=100)
     for i in badc["clean_model_ok"]:
         m = meta[i]
         ctx.mismatch("RequirementsTxtParser._clean_lines/str.splitlines vs Model.Manifest.clean_lines/splitlines",
@@ -658,7 +689,7 @@ def part_req(ctx, n):
                               "old content is not preserved byte for byte (line endings converted to LF)", replay)
             elif names_explained:
                 pass   # consequence of the names defect reported above
-            elif other_spelling(m["deps"], m["res"]["names"]):
+            elif other_spelling(m["deps"], m["res"]["names"], m["after"]):
                 ctx.violation("kf_has_requirement_exact_name", f"requirements.txt {m['text']!r} declares {m['res']['names']} and still received "
                               f"{m['deps']}: {m['after']!r} (has_requirement compares raw names)", replay)
             else:
@@ -725,8 +756,8 @@ def part_cfg(ctx, n):
                  nontrivial_key=("cfg", text, tuple(dt), dry) if (r["kind"] == 2 or any(canon(nm) in {canon(x) for x in r["names"]} for nm, _ in dt)) else None,
                  sample=(r["kind"] == 2 and not dry and "malformed" not in tags and len(ctx.samples) < 4))
 
-    bad = core.eval_bad_indices(ctx, "c14_cfg", IMPORTS, "cfg_case", coq_cases,
-                                ["cfg_model_ok", "cfg_spec_ok", "cfg_spec_ok_mod_nl", "cfg_guard_unique"], chunk=120)
+    bad = par_eval(ctx, "c14_cfg", "cfg_case", coq_cases,
+                   ["cfg_model_ok", "cfg_spec_ok", "cfg_spec_ok_mod_nl", "cfg_guard_unique"], chunk=50)
     for i in bad["cfg_model_ok"]:
         m = meta[i]
         ctx.mismatch("SetupCfgWriter.write vs Model.Manifest.cfg_write",
@@ -759,6 +790,9 @@ def part_cfg(ctx, n):
             if explained in ("kf_setupcfg_dupline", "kf_setupcfg_no_final_newline"):
                 ctx.violation(explained, f"setup.cfg {text!r} + {m['deps']} became {m['after']!r}: new requirement lines are not "
                               "inserted (alone) after the last install_requires line", replay)
+            elif other_spelling(m["deps"], m["res"]["names"], m["after"]):
+                ctx.violation("kf_has_requirement_exact_name", f"setup.cfg {text!r} declares {m['res']['names']} and still received "
+                              f"{m['deps']}: {m['after']!r} (has_requirement compares raw names)", replay)
             elif inline:
                 ctx.violation("kf_setupcfg_inline_list", f"setup.cfg {text!r} + {m['deps']} became {m['after']!r} (kind {m['res']['kind']}): "
                               "the inline install_requires value is not read as a list of requirements", replay)
@@ -846,15 +880,20 @@ def run_loop(ctx, files: dict, dep, dry: bool):
     d = fresh_dir(ctx)
     core.write_tree(d, files)
     (d / "app.py").write_text("print(1)\n")
-    # what each store's writer answers, on fresh stores, without touching the files
+    # what each store's writer answers: asked on a COPY of the project, one fresh copy per store
     outs, kinds, crashed = [], [], False
-    for st in I["PythonRepoManager"](d).package_stores:
+    n_stores = len(I["PythonRepoManager"](d).package_stores)
+    for i in range(n_stores):
+        dc = fresh_dir(ctx)
+        shutil.copytree(d, dc, dirs_exist_ok=True)
+        st = I["PythonRepoManager"](dc).package_stores[i]
         kinds.append(st.type.value)
         try:
-            outs.append(I["DependencyManager"](st, d).write([dep], True) is not None)
+            outs.append(I["DependencyManager"](st, dc).write([dep], True) is not None)
         except Exception:
             crashed = True
             outs.append(False)
+        shutil.rmtree(dc, ignore_errors=True)
     before = {rel: (d / rel).read_text() for rel in files}
     c = I["CodemodExecutionContext"](d, dry, False, None, None, I["PythonRepoManager"](d), [], [])
     c.add_dependencies(_StubCodemod.id, {dep})
@@ -1003,7 +1042,7 @@ def cli_case(ctx, idx, files, codemod, dry):
             "r2": r2, "rep2": rep2, "src_changed": src_changed, "srcname": srcname}
 
 
-def part_cli(ctx, n):
+def prepare_cli(ctx, n):
     rng = ctx.rng
     jobs = []
     for fname, body in load_corpus("cli"):
@@ -1021,8 +1060,15 @@ def part_cli(ctx, n):
                 files["requirements.txt"] = t
                 tags |= {"req:" + x for x in tg}
         jobs.append((files, codemod, rng.random() < 0.15, tags))
-    with ThreadPoolExecutor(max_workers=min(12, core.NCPU)) as ex:
-        results = list(ex.map(lambda a: cli_case(ctx, a[0], a[1][0], a[1][1], a[1][2]), enumerate(jobs)))
+    return jobs
+
+
+def run_cli_jobs(ctx, jobs):
+    with ThreadPoolExecutor(max_workers=min(10, core.NCPU)) as ex:
+        return list(ex.map(lambda a: cli_case(ctx, a[0], a[1][0], a[1][1], a[1][2]), enumerate(jobs)))
+
+
+def judge_cli(ctx, jobs, results):
     for (files, codemod, dry, tags), res in zip(jobs, results):
         ctx.cli_runs += 1 + (0 if dry else 1)
         for t in tags:
@@ -1114,10 +1160,22 @@ def run(ctx: core.Ctx):
     deep = getattr(ctx, "deep", False)
     mult = 3 if deep else 1
     active_branches(ctx)
-    part_req(ctx, (260 if quick else 2500) * mult)
-    part_cfg(ctx, (220 if quick else 2000) * mult)
-    part_loop(ctx, (160 if quick else 1500) * mult)
-    part_cli(ctx, (22 if quick else 120) * (2 if deep else 1))
+    import time
+    t0 = time.time()
+    # the CLI runs (subprocesses, mostly waiting for semgrep) overlap with the in-process parts
+    with ThreadPoolExecutor(max_workers=1) as bg:
+        cli_jobs = prepare_cli(ctx, (22 if quick else 120) * (2 if deep else 1))
+        fut = bg.submit(run_cli_jobs, ctx, cli_jobs)
+        part_req(ctx, (260 if quick else 2500) * mult)
+        t1 = time.time()
+        part_cfg(ctx, (220 if quick else 2000) * mult)
+        t2 = time.time()
+        part_loop(ctx, (160 if quick else 1500) * mult)
+        t3 = time.time()
+        results = fut.result()
+    judge_cli(ctx, cli_jobs, results)
+    ctx.notes.append(f"wall: requirements.txt {t1 - t0:.0f}s, setup.cfg {t2 - t1:.0f}s, process_dependencies {t3 - t2:.0f}s, "
+                     f"CLI (overlapped) done at {time.time() - t0:.0f}s")
 
 
 def replay(ctx, body):
